@@ -166,6 +166,25 @@ def _gen_case(rng, tier):
                                       rng.choice(['v1', 'a b', 'ünï', 'Łódź', '日本語', 'x;y,z"q', 'Привет'])])
     for code in rng.sample([404, 405, 500, 418, 400, 413], rng.choice([0, 0, 1, 2])):
         case['error_handlers'].append([code, rng.choice(['str', 'bytes', 'list', 'empty', 'str', 'bytes', 'list', 'empty', 'cycle'])])
+    if rng.random() < 0.08:
+        # served by the module-level default application, the handler uses the module-level helpers
+        # (static_file / redirect / abort read ombott.request / ombott.response)
+        case['use_default'] = True
+        h = rng.choice(['static', 'static', 'static', 'redirect', 'abort'])
+        if h == 'static':
+            case['result'] = {'k': 'static', 'name': rng.choice(['hello.txt', 'data.bin', 'missing.txt', '../c03.py', 'hello.txt']),
+                              'download': rng.random() < 0.3}
+            hdrs = {}
+            if rng.random() < 0.3:
+                hdrs['Range'] = rng.choice(['bytes=0-4', 'bytes=5-', 'bytes=-3', 'bytes=900-', 'bytes=2-1', 'items=1-2', 'bytes=0-0'])
+            if rng.random() < 0.2:
+                hdrs['If-Modified-Since'] = rng.choice(['Mon, 01 Jan 2035 00:00:00 GMT', 'Thu, 01 Jan 1970 00:00:00 GMT', 'garbage'])
+            case['req_headers'] = hdrs
+        elif h == 'redirect':
+            case['result'] = {'k': 'redirect', 'to': rng.choice(['/elsewhere', 'relative/x', 'http://other.test/a?b=c', '/ü']),
+                              'code': rng.choice([None, 301, 307])}
+        else:
+            case['result'] = {'k': 'abort', 'code': rng.choice([400, 401, 404, 418, 500, 503]), 'text': rng.choice(TEXTS) or 'x'}
     if case['before'] and case['path'] != 'miss' and rng.random() < 0.12:
         case['rewrite'] = rng.choice(['path', 'method'])
     primed = case['result'].get('k') == 'read_body' and case.get('prime')
@@ -329,6 +348,14 @@ def build(spec, ctx, label='r'):
     """-> python object for a result spec; for how='raise' raises"""
     import ombott
     k = spec['k']
+    if k == 'static':
+        import os
+        root = os.path.join(os.path.dirname(os.path.dirname(os.path.abspath(__file__))), 'apps', 'static')
+        return ombott.static_file(spec['name'], root, download=spec.get('download', False))
+    if k == 'redirect':
+        ombott.redirect(spec['to'], spec.get('code'))
+    if k == 'abort':
+        ombott.abort(spec['code'], spec['text'])
     if k == 'read_body':
         rq = ctx.app.request
         if spec['bad'] == 'json':
@@ -403,7 +430,17 @@ def _cur():
 def setup_app(case):
     """Application with the program's callbacks; the callbacks find their per-request context through _cur()."""
     import ombott
-    app = ombott.Ombott()
+    if case.get('use_default'):
+        # the process-wide default application, put back into its pristine configuration first
+        from ombott.router import RadiRouter
+        app = ombott.default_app()
+        app.router = RadiRouter()
+        app.__dict__.pop('_hooks', None)
+        app._route_hooks = {}
+        app.error_handlers = {'404-hooks': {}}
+        app.setup({})
+    else:
+        app = ombott.Ombott()
     resp_obj = app.response
 
     bhooks = {}
@@ -504,8 +541,11 @@ def serve_and_check(case, app, suffix):
         method = case['method']
         if case.get('rewrite') == 'method':
             method = 'TRACE'        # the before-request hook puts the real method back before routing
+        hdrs = dict(case.get('req_headers') or {})
+        if accept_json:
+            hdrs['Accept'] = 'application/json'
         return make_environ(method, path, query + suffix, file_wrapper=(FakeFileWrapper if case['file_wrapper'] else None),
-                            headers=({'Accept': 'application/json'} if accept_json else None), **kw)
+                            headers=hdrs or None, **kw)
 
     if case['result']['k'] == 'read_body':
         if case.get('prime'):
@@ -558,6 +598,36 @@ def serve_and_check(case, app, suffix):
             want = want | {500}      # a response cycle ends in the cast loop's own 500
         if want is not None and code not in want:
             violation(res, 'C03:fault-status', f'{exc} injected at {fault["at"]} answered {r.status!r}, expected {sorted(want)}')
+    # ---- module-level helpers on the default application ----
+    if case.get('use_default') and case['path'] == 'hit' and not ctx.fault_raised and r.escaped is None \
+            and 'handler' in [e[0] for e in events] and not case.get('error_handlers') \
+            and not any(m[0] == 'header' and '\udcff' in m[2] for m in case['mutations']):
+        rk = case['result']
+        want = None
+        if rk['k'] == 'abort':
+            want = {rk['code']}
+        elif rk['k'] == 'redirect':
+            want = {rk['code']} if rk.get('code') else {302, 303}
+            if not r.header('Location'):
+                violation(res, 'C03:helper-result', f'redirect({rk["to"]!r}) answered {r.status!r} without a Location header')
+        elif rk['k'] == 'static':
+            hdrs = case.get('req_headers') or {}
+            if rk['name'] in ('missing.txt',):
+                want = {404}
+            elif rk['name'].startswith('..'):
+                want = {403}
+            elif not hdrs:
+                want = {200}
+                import os
+                fn = os.path.join(os.path.dirname(os.path.dirname(os.path.abspath(__file__))), 'apps', 'static', rk['name'])
+                data = open(fn, 'rb').read()
+                if case['method'] != 'HEAD' and not r.stopped_early and r.body != data and code == 200:
+                    violation(res, 'C03:helper-result', f'static_file({rk["name"]!r}) delivered {len(r.body)} bytes, the file has {len(data)}')
+            else:
+                want = {200, 206, 304, 416}
+        if want is not None and code not in want:
+            violation(res, 'C03:helper-result', f'{rk} through the default application answered {r.status!r}, expected one of {sorted(want)}')
+        res['probes']['default_app_helper:' + rk['k']] += 1
     # ---- hooks ----
     befores = [e[1] for e in events if e[0] == 'before']
     afters = [e[1] for e in events if e[0] == 'after']
@@ -700,7 +770,7 @@ def shrink_candidates(case):
             yield dict(case, result=dict(r, lead=0))
         for it in shrink.list_cands(r['items']):
             yield dict(case, result=dict(r, items=it))
-    if r['k'] not in ('str', 'read_body'):
+    if r['k'] not in ('str', 'read_body', 'static', 'redirect', 'abort'):
         yield dict(case, result={'k': 'str', 'v': 'x'})
     if case.get('fault') and case['fault']['exc'] != 'ValueError':
         yield dict(case, fault=dict(case['fault'], exc='ValueError'))
